@@ -246,6 +246,12 @@ func runProperty(ctx *Ctx, o *Options, t0 time.Time) int {
 				nDis++ // accounted for (listed finding), not counted as a violation
 				continue
 			}
+			if len(ex.errs) > 0 {
+				// the contract of this function could not be bound completely (or a construct is
+				// unsupported): a failed obligation here is a consequence of that, not a verdict
+				undecided = append(undecided, fr.key+": obligation "+g.name+" not decided because the contract did not bind")
+				continue
+			}
 			path := writeReplay(ctx, o, solver, P, g, first)
 			violations = append(violations, path)
 		}
